@@ -47,6 +47,7 @@ REQUIRED = [
     "kind:udp-client-recv",
     "kind:endpoint-send",
     "kind:client-send-lock",
+    "other_lock_held_meanwhile",
     "kind:async-iter",
     "timeouts_raised",
     "returned_in_time",
@@ -261,6 +262,7 @@ def scenario_stream(ctx, kind: str, rng: random.Random, T: float | None, retry: 
                         held = rng.choice([None, 0.5, 1.0, 3.0])
                         vlock = VirtualLock(clock, None if held is None else t0 + held)
                         client._TCPNetworkClient__receive_lock = _lock.ForkSafeLock(lambda: vlock)  # type: ignore[attr-defined]
+                        _hold_other_lock(ctx, rng, client, "_TCPNetworkClient__send_lock", clock, t0)
                         lock_wait = held or 0.0
                         if held:
                             ctx.count("lock_waits")
@@ -394,6 +396,17 @@ def scenario_iter(ctx, rng: random.Random, T: float | None, retry: float, tag) -
     _finish(ctx, "client-iter", why, Tn, retry, arrivals, 0.0, False, outcome, elapsed, tag)
 
 
+def _hold_other_lock(ctx, rng, client, attr: str, clock, t0) -> None:
+    """another thread holds the client's OTHER lock (the send lock during a receive, the receive lock during a send) for several
+    seconds: the operation under test must neither wait for it nor charge it to its budget"""
+    if rng.random() < 0.5:
+        return
+    other = VirtualLock(clock, t0 + rng.choice([3.0, 6.0, 30.0]))
+    setattr(client, attr, _lock.ForkSafeLock(lambda: other))
+    ctx.count("other_lock_held_meanwhile")
+
+
+
 def scenario_udp(ctx, rng: random.Random, T: float | None, retry: float, tag) -> None:
     from easynetwork.clients.udp import UDPNetworkClient
 
@@ -417,6 +430,7 @@ def scenario_udp(ctx, rng: random.Random, T: float | None, retry: float, tag) ->
                 client = UDPNetworkClient(a, DatagramProtocol(StringLineSerializer()), retry_interval=retry)
                 vlock = VirtualLock(clock, None if held is None else t0 + held)
                 client._UDPNetworkClient__receive_lock = _lock.ForkSafeLock(lambda: vlock)  # type: ignore[attr-defined]
+                _hold_other_lock(ctx, rng, client, "_UDPNetworkClient__send_lock", clock, t0)
                 if held:
                     ctx.count("lock_waits")
                 try:
@@ -572,6 +586,7 @@ def scenario_client_send_lock(ctx, rng: random.Random, T: float | None, retry: f
                 fs.setup(clock, blocks)
                 vlock = VirtualLock(clock, t0 + held)
                 client._TCPNetworkClient__send_lock = _lock.ForkSafeLock(lambda: vlock)  # type: ignore[attr-defined]
+                _hold_other_lock(ctx, rng, client, "_TCPNetworkClient__receive_lock", clock, t0)
                 ctx.count("lock_waits")
                 try:
                     with cpu_guard(20):
